@@ -35,30 +35,25 @@ Theorem C15_fixup_order_spec : forall fs,
 Proof. exact fixup_order_spec. Qed.
 Print Assumptions C15_fixup_order_spec.
 
-Theorem C15_fixup_covers : forall add_iam svcs,
-  (forall r1 r2, In r1 (all_rpcs svcs) -> In r2 (all_rpcs svcs) -> ci r1 = ci r2 -> r_name r1 = r_name r2) ->
-  forall r, In r (all_rpcs svcs) ->
+Theorem C15_fixup_covers : forall add_iam svcs r, In r (all_rpcs svcs) ->
   exists r', In r' (all_rpcs svcs) /\ r_name r' = r_name r /\
              In (snake (r_name r), params_of r') (method_to_params add_iam svcs).
 Proof. exact fixup_covers. Qed.
 Print Assumptions C15_fixup_covers.
 
 Theorem C15_fixup_listed_once : forall svcs,
-  NoDup (map ci (listed_rpcs svcs)) /\ (forall r, In r (listed_rpcs svcs) -> In r (all_rpcs svcs)).
+  NoDup (map r_name (listed_rpcs svcs)) /\ (forall r, In r (listed_rpcs svcs) -> In r (all_rpcs svcs)).
 Proof. exact fixup_listed_once. Qed.
 Print Assumptions C15_fixup_listed_once.
 
-(* without the letter-case hypothesis the statement is false of the faithful model (finding) *)
-Theorem C15_fixup_covers_refuted :
-  exists svcs r, In r (all_rpcs svcs) /\
-    NoDup (map (fun r => snake (r_name r)) (all_rpcs svcs)) /\
-    ~ In (snake (r_name r)) (map fst (method_to_params false svcs)).
-Proof. exact fixup_covers_refuted. Qed.
-Print Assumptions C15_fixup_covers_refuted.
+(* RPC names that differ only by letter case each have their entry (former witness of the case-insensitive unique defect) *)
+Example C15_fixup_case_example :
+  method_to_params false witness_svcs = [("get_book", ["name"]); ("getbook", ["x"])].
+Proof. exact fixup_case_example. Qed.
+Print Assumptions C15_fixup_case_example.
 
 Example C15_example_ok :
   NoDup (map s_name example_svcs) /\ (forall s, In s example_svcs -> NoDup (map r_name (s_rpcs s))) /\
-  (forall r1 r2, In r1 (all_rpcs example_svcs) -> In r2 (all_rpcs example_svcs) -> ci r1 = ci r2 -> r_name r1 = r_name r2) /\
   map (fun e => (e_client e, e_method e)) (metadata_entries ["rest"] example_svcs)
     = [("AuxClient", "zed"); ("BaseLibClient", "get_book"); ("BaseLibClient", "_import_"); ("BaseLibClient", "class_")] /\
   method_to_params false example_svcs
